@@ -8,6 +8,7 @@ import Driver.Timers
 import Driver.EmfSpec
 import Driver.Aggregation
 import Driver.KeepAlive
+import Driver.Sampling
 /-!
 `driver <engine>`: reads one request per line on stdin, prints one reply per line.
 Every engine is a pure function `String → String` of the request line (stateful models receive the
@@ -24,7 +25,8 @@ def engines : List (String × (String → String)) := [
   ("timers", Driver.Timers.handle),
   ("emfspec", Driver.EmfSpec.handle),
   ("aggregation", Driver.Aggregation.handle),
-  ("keepalive", Driver.KeepAlive.handle)
+  ("keepalive", Driver.KeepAlive.handle),
+  ("sampling", Driver.Sampling.handle)
 ]
 
 partial def loop (h : IO.FS.Stream) (out : IO.FS.Stream) (f : String → String) : IO Unit := do
